@@ -1,5 +1,21 @@
 """Stream `matrix` (C13): every input file type x output format x output mode x colour mode x condensed flag x
-documents with/without differences, through the real command line in-process.  Observation = error enum."""
+documents with/without differences, through the real command line in-process.  Observation = error enum + the `print` / `print_*`
+methods of graphtage that the run entered (harness/handlercov.py, sys.monitoring).
+
+Document sets (`content(kind, which, docset)`):
+  0  the original pair          1  exotic values (NaN, bytes, tuples, binary plist, namespaces, CDATA, awkward CSV)
+  2  values without a node type (yaml / plist)
+  3 - 6  SHAPES: every leaf type changed (float, int, bool, strings), leaf <-> container and list <-> dict replacements, removed /
+         inserted containers, list root, scalar root against container root, empty documents - without null / non-finite numbers
+  7 / 8  pickle only: pickled OBJECTS (OrderedDict, Fraction, date, a function reference, Namespace, Counter, sets of tuples, a tuple
+         key), protocol 4 / protocol 0 - the loader turns them into a Python module (imports, calls, attribute calls, subscripts)
+  9 - 12 pickle only: small VALID pickles on which the current tree ends in an internal error (candidate findings, one key each)
+  lib    graphtage.pydiff.print_diff on Python objects (the only way to the PyObj* handlers; not a command-line path)
+The shape / object / probe documents are FORCED in every (input, format, mode) cell of the quick tier, so the set of handlers that run
+does not depend on the seed.  The list of cases ends with one pseudo-case per handler of the tree under test: `classify` reports for
+each whether a case entered it (`handler:<name>:ran` / `NOT-RUN` / `not reachable from the command line (<reason>)`), and the monitor
+reports `handler-never-run:<name>` for a reachable handler that no case of a whole run entered.
+Measure by hand:  PYTHONPATH=.:/repo /venv/bin/python -m harness.handlercov [--tier quick] [--seed N]"""
 import base64, json, pickle, plistlib
 
 NAME = "matrix"
@@ -89,13 +105,102 @@ def _unsupported(kind, which):
     return _exotic(kind, which)
 
 
+# ---- docsets 3..6: SHAPES.  Every edit kind and every leaf type CHANGED, without a null (D18) and without non-finite numbers, so that
+# every formatter completes on a document with differences for every input type that it can render at all:
+#   3  mapping root: changed float / int / bool / multi-character strings, leaf <-> container and list <-> dict replacements,
+#      removed and inserted containers, reordered list elements, an unchanged sub-document
+#   4  list root (the same element kinds)
+#   5  scalar root against a container root
+#   6  empty documents
+S1 = {"f": 1.5, "i": 10, "s": "hello world", "l2s": [1, 2], "s2l": "x", "d2l": {"a": 1}, "l2d": [1], "leaf2d": 7, "d2leaf": {"k": [1, 2.5]},
+      "b": True, "list": [1.25, "abc", [1, 2], {"k": 1}, "tail"], "gone": {"x": [1.5]}, "same": {"p": [1, 2.5, "q", True]},
+      "ml": "line one\nline two\n", "num2str": 5, "renamed_key": "v"}
+S2 = {"f": 2.5, "i": 11, "s": "hello brave new world", "l2s": "x", "s2l": [1, 2], "d2l": [1], "l2d": {"a": 1}, "leaf2d": {"k": [1, 2.5]}, "d2leaf": 7,
+      "b": False, "list": [1.75, "abd", {"k": 1}, [1, 2]], "new": {"y": [2.5]}, "same": {"p": [1, 2.5, "q", True]},
+      "ml": "line one\nline 2\nline three", "num2str": "5", "renamed_kez": "v"}
+SHAPES = {
+    3: (S1, S2),
+    4: ([1.5, "a", [1], {"k": 2}, 7, "unchanged", {"x": {"y": [0.5]}}], [2.5, "b", {"k": 2}, [1], "unchanged", {"x": {"y": [0.25, 1]}}, 8.0]),
+    5: ("just text", [1, {"a": 2.5}]),
+    6: ({}, []),
+}
+XS = {
+    3: ('<?xml version="1.0"?>\n<r><a x="1">text one</a><b>2.5</b><c><d/></c><swap>t</swap><k>same</k><gone a="b">bye<g/></gone></r>',
+        '<?xml version="1.0"?>\n<r><a x="1" y="2">text two longer</a><b>3.5</b><c>now text</c><other>t</other><k>same</k></r>'),
+    4: ('<?xml version="1.0"?>\n<r>x</r>', '<?xml version="1.0"?>\n<s a="1"><t/>tail</s>'),
+    5: ('<?xml version="1.0"?>\n<r a="1" b="2"/>', '<?xml version="1.0"?>\n<r b="1" c="2">text</r>'),
+    6: ('<r/>', '<e></e>\n'),
+}
+CS = {
+    3: ("id,name,val\n1,foo,1.5\n2,bar,4\n", "id,name,val,extra\n1,foo,2.5,x\n3,bar baz,4,y\n4,q,5,z\n"),
+    4: ("x\n", "y,z\n"),
+    5: ("a,b\n1,2\n3,4\n", "a,b\n"),
+    6: ("", "a\n"),
+}
+
+
+def _py_objects(which, proto):
+    """docsets 7 / 8 (pickle input only): a pickle of OBJECTS, which the loader turns into a Python module (imports, calls, attribute
+    calls `_var.update(...)`, with protocol 0 subscript assignments `_var['k'] = v`), with changed, removed and unchanged statements,
+    a function reference, sets of tuples, and a mapping key that is a tuple.  (No float with protocol 0, no mapping with a tuple
+    key next to another key, and no mapping where it could be paired with a set - mappings with tuple keys sit alone in a list -:
+    see docsets 9 - 12.)"""
+    import argparse, collections, datetime, fractions, os.path
+    a = which == 1
+    if proto == 0:      # protocol 0 writes many more statements (and the diff of two modules is quadratic in them): a small document
+        return pickle.dumps({"od": collections.OrderedDict(a=1, b=[2]) if a else collections.OrderedDict(a=2, c=[2]),
+                             "same_od": collections.OrderedDict(k=1), "ns": argparse.Namespace(x=which), "fn": os.path.join if a else os.path.split},
+                            protocol=0)
+    d = {"od": collections.OrderedDict(a=1, b=[2]) if a else collections.OrderedDict(a=2, c=[2]),
+         "fr": fractions.Fraction(1, 3 if a else 4), "d": datetime.date(2020, 1, 1 + which),
+         "fn": os.path.join if a else os.path.split, "ns": argparse.Namespace(x=which, y="s"),
+         "set": [0, {(1, 2), (3, which)}, "t"] if a else [0, "t"],
+         "sets": {(1, which), (5,)}, "tk": [{(1, "tuple key"): [which, 2]}], "tk2": [{(2, which): "changing tuple key"}],
+         "same_fr": fractions.Fraction(5, 7), "same_od": collections.OrderedDict(k=1), "same_fn": os.path.join,
+         "same_ns": argparse.Namespace(q=1), "cnt": collections.Counter("aab" if a else "abb"),
+         "l2o": [1, 2] if a else fractions.Fraction(1, 2), "o2s": fractions.Fraction(3, 2) if a else "text"}
+    d["f"] = 1.5 * which
+    if a:
+        d["only_first"] = fractions.Fraction(9, 8)
+    else:
+        d["only_second"] = collections.OrderedDict(z=[1])
+    return pickle.dumps(d, protocol=proto)
+
+
+def _py_unloadable(docset, which):
+    """docsets 9 - 12 (pickle input only): VALID pickles that the loader must either load or refuse with a message (never an internal
+    error): 9 = a mapping with two tuple keys, 10 = a float written with protocol 0, 11 = a collections.deque written with protocol 0;
+    12 = a mapping in the first file where the second has a set (both load)."""
+    import collections
+    if docset == 12:
+        return pickle.dumps({"k": 1} if which == 1 else {2})
+    if docset == 9:
+        return pickle.dumps({(1,): which, (2,): 2})
+    if docset == 10:
+        return pickle.dumps([1.5 * which], protocol=0)
+    return pickle.dumps(collections.deque([which]), protocol=0)
+
+
 def content(kind, which, docset=0):
     import yaml
     if docset == 1:
         return _exotic(kind, which)
     if docset == 2:
         return _unsupported(kind, which)
-    d = D1 if which == 1 else D2
+    if docset in (7, 8):
+        assert kind == "pickle"
+        return _py_objects(which, 4 if docset == 7 else 0)
+    if docset in (9, 10, 11, 12):
+        assert kind == "pickle"
+        return _py_unloadable(docset, which)
+    if docset in SHAPES:
+        if kind == "csv":
+            return CS[docset][which - 1].encode()
+        if kind in ("xml", "html"):
+            return XS[docset][which - 1].encode()
+        d = SHAPES[docset][which - 1]
+    else:
+        d = D1 if which == 1 else D2
     if kind in ("json", "json5"):
         return json.dumps(d).encode()
     if kind == "yaml":
@@ -111,7 +216,12 @@ def content(kind, which, docset=0):
     raise ValueError(kind)
 
 
+def docsets_for(kind):
+    return [0, 1] + ([2] if kind in ("yaml", "plist") else []) + [3, 4, 5, 6] + ([7, 8, 9, 10, 11, 12] if kind == "pickle" else [])
+
+
 def all_configs():
+    n = 0
     for i in INPUTS:
         for f in FORMATS:
             for m in MODES:
@@ -123,6 +233,87 @@ def all_configs():
                             yield {"input": i, "format": f, "mode": m, "color": c, "cond": j, "opts": o, "same": False, "docset": 1}
                             if i in ("yaml", "plist") and not j and not o:
                                 yield {"input": i, "format": f, "mode": m, "color": c, "cond": j, "opts": o, "same": False, "docset": 2}
+                    for o in OPTS:
+                        for ds in docsets_for(i):
+                            if ds >= 3 and (ds < 9 or (f is None and not o)):
+                                n += 1
+                                yield {"input": i, "format": f, "mode": m, "color": c, "cond": COND[n % 2], "opts": o, "same": n % 7 == 0, "docset": ds}
+
+
+def _forced(rng):
+    """The shape documents (docsets 3 - 8) in every (input, format, mode) cell, and the loader / pairing probes (9 - 12): the DOCUMENTS and the
+    cell are fixed, only colour / condensed flags are drawn, so which handlers run does not depend on the seed."""
+    out = []
+    for i in INPUTS:
+        for f in FORMATS:
+            for m in MODES:
+                for ds in docsets_for(i):
+                    if ds < 3 or (ds >= 9 and f is not None):
+                        continue
+                    out.append({"input": i, "format": f, "mode": m, "color": rng.choice(COLORS), "cond": rng.choice(COND), "opts": [], "same": False, "docset": ds})
+                    if ds in (3, 7, 8) and not m:      # the whole document through the formatter, without edits
+                        out.append({"input": i, "format": f, "mode": m, "color": rng.choice(COLORS), "cond": rng.choice(COND), "opts": [], "same": True, "docset": ds})
+                    if ds in (3, 7):
+                        out.append({"input": i, "format": f, "mode": m, "color": rng.choice(COLORS), "cond": rng.choice(COND), "opts": rng.choice(OPTS[1:]),
+                                    "same": False, "docset": ds})
+    return out
+
+
+# ---- library cases: graphtage.pydiff.print_diff on Python OBJECTS (the only way to the PyObj* handlers; not a command-line path)
+class _Pt:
+    def __init__(self, **kw):
+        self.__dict__.update(kw)
+
+
+def _pyobj_pair(i):
+    pairs = [
+        (_Pt(a=1, b="x"), _Pt(a=2, b="x")),
+        (_Pt(a=1, b=[1, 2], c={"k": 1.5}), _Pt(a=1, b=[1, 3], c={"k": 2.5, "n": None})),
+        ([_Pt(a=1, b=2)], [_Pt(a=1, b=2), 3]),
+        (_Pt(a=1, inner=_Pt(x="hello", y=(1, 2))), _Pt(a=1, inner=_Pt(x="help", z=(1, 2)))),
+        (_Pt(a=1), _Pt(a=1)),
+        ({"o": _Pt(a=b"bytes", s={1, 2})}, {"o": _Pt(a=b"bytez", s={2, 3})}),
+        (_Pt(a=1), [1, 2]),
+    ]
+    return pairs[i]
+
+
+PYOBJ_PAIRS = 7
+
+
+def _impl_pyobj(case):
+    import io
+    import graphtage
+    from graphtage import pydiff
+    from graphtage.printer import Printer, HTMLPrinter
+    from harness import handlercov
+    x, y = _pyobj_pair(case["pair"])
+    opts = graphtage.BuildOptions(allow_key_edits=not case.get("k", False))
+    out = io.StringIO()
+    cls = HTMLPrinter if "--html" in case["color"] else Printer
+    printer = cls(out_stream=out, ansi_color="--color" in case["color"], quiet=True)
+    handlercov.start()
+    handlercov.reset()
+    exc = msg = None
+    try:
+        pydiff.print_diff(x, y, printer=printer, options=opts)
+    except Exception as e:      # noqa
+        exc, msg = type(e).__name__, str(e)[:300]
+    return {"rc": 0, "exc": exc, "msg": msg, "out_len": len(out.getvalue()), "err": "", "argv": ["pydiff.print_diff", "pair%d" % case["pair"]] + case["color"],
+            "handlers": handlercov.seen()}
+
+
+def handler_names():
+    """Every `print` / `print_*` method of the graphtage tree under test (listed in a subprocess that imports that tree)."""
+    import os, subprocess, sys
+    from harness import common as C
+    env = dict(os.environ, PYTHONPATH=C.VERIF + os.pathsep + C.REPO, PYTHONDONTWRITEBYTECODE="1")
+    try:
+        p = subprocess.run([C.PY, "-c", "import json; from harness import handlercov; print(json.dumps(handlercov.all_handlers()))"],
+                           capture_output=True, text=True, env=env, cwd=C.VERIF, timeout=120)
+        return json.loads(p.stdout.strip().splitlines()[-1])
+    except Exception:
+        return ["?handler-list-failed"]
 
 
 def gen(rng, tier):
@@ -141,12 +332,55 @@ def gen(rng, tier):
                                        "same": False, "docset": 1})
                     if i in ("yaml", "plist"):
                         chosen.append({"input": i, "format": f, "mode": m, "color": rng.choice(COLORS), "cond": [], "opts": [], "same": False, "docset": 2})
-        cfgs = chosen
-    return cfgs
+        cfgs = chosen + _forced(rng)
+    cfgs += [{"lib": "pydiff", "pair": i, "k": k, "color": c} for i in range(PYOBJ_PAIRS) for k in (False, True)
+             for c in (COLORS if tier != "quick" else [rng.choice(COLORS)] + ([COLORS[3]] if i == 0 and not k else []))]
+    # one closing pseudo-case per handler: reports (classify) whether any of the cases above entered it
+    return cfgs + [{"coverage": n} for n in handler_names()]
+
+
+# Handlers that no command-line run can enter, with the reason (reviewed by reading the code; a handler listed here that DOES run is
+# shown as such in the evidence).  `formatter.print(node)` always finds a `print_<Class>` method because the registered formatters
+# include JSONFormatter.print_LeafNode / print_ContainerNode (theorem C13.dispatch_total), so the fall-back `node.print(printer)` in
+# GraphtageFormatter.print is dead; a node's own `print` only runs where another method calls it directly (mapping keys in
+# print_parent_context: leaves, strings and tuple keys).
+NOT_CLI = {
+    "Edit.print": "protocol default (raises NotImplementedError); every concrete edit class overrides it",
+    "TreeNode.print": "abstract",
+    "formatter.Formatter.print": "abstract",
+    "formatter.BasicFormatter.print": "base class for user-defined formatters; GraphtageFormatter overrides print",
+    "EditCollection.print": "the only bare EditCollection (PLISTNode.edits) is replaced as the root's .edit by its own zero-cost Match in "
+                            "on_diff; FixedKeyDictNodeEdit gets SequenceEdit.print first in its MRO",
+    "KeyValuePairNode.print": "node.print fall-back only (a pair is never a mapping key)",
+    "ast.Module.print": "node.print fall-back only", "ast.Assignment.print": "node.print fall-back only",
+    "ast.Call.print": "node.print fall-back only", "ast.Subscript.print": "node.print fall-back only",
+    "ast.Import.print": "node.print fall-back only", "dataclasses.DataClassNode.print": "node.print fall-back only",
+    "pydiff.PyAlias.print": "node.print fall-back only", "xml.XMLElement.print": "node.print fall-back only",
+    "plist.PLISTNode.print": "node.print fall-back only",
+    "plist.PLISTSequenceFormatter.print_SequenceNode": "every concrete sequence class is a ListNode, a MultiSetNode or a MappingNode, which have their own handlers there",
+    "pydiff.PyObj.print": "PyObj nodes are built by graphtage.pydiff.build_tree (library) only; the pickle loader builds ast nodes",
+    "pydiff.PyObjEdit.print": "PyObj nodes: library only",
+    "pydiff.PyObjFormatter.print_PyObj": "PyObj nodes: library only",
+    "pydiff.PyObjFormatter.print_PyObjAttributes": "PyObj nodes: library only",
+    "pydiff.PyObjFormatter.print_PyObjFixedAttributes": "PyObj nodes: library only",
+    "pydiff.PyObjFormatter.print_KeywordArgument": "KeywordArgument pairs are made by PyObjAttributes only (library); Call.kwargs is always empty",
+}
+_RAN = {}        # handler -> number of cases of this run that entered it (filled by monitor, read by the closing pseudo-cases)
+_RAN_OK = {}     # ... and ended without an internal error
+_RAN_LIB = {}    # ... of which library cases
+_MONITORED = [0]
+
+
+def _cov_names(name):
+    return name.split("=")
 
 
 def impl(case):
-    from harness import clirun
+    from harness import clirun, handlercov
+    if "coverage" in case:
+        return {"rc": 0, "exc": None, "msg": None, "exists": case["coverage"] in handlercov.all_handlers()}
+    if "lib" in case:
+        return _impl_pyobj(case)
     ext = {"pickle": "pkl"}.get(case["input"], case["input"])
     a = content(case["input"], 1, case.get("docset", 0))
     b = a if case["same"] else content(case["input"], 2, case.get("docset", 0))
@@ -155,9 +389,11 @@ def impl(case):
     if case["format"]:
         argv += ["-f", case["format"]]
     argv += ["a." + ext, "b." + ext]
+    handlercov.start()
+    handlercov.reset()
     r = clirun.run_case(files, [{"argv": argv}])[0]
-    tb = None
-    return {"rc": r["rc"], "exc": r["exc"], "msg": r["msg"], "out_len": len(r["out"]), "err": r["err"][:300], "argv": argv}
+    return {"rc": r["rc"], "exc": r["exc"], "msg": r["msg"], "out_len": len(r["out"]), "err": r["err"][:300], "argv": argv,
+            "handlers": handlercov.seen()}
 
 
 def _fmt(case):
@@ -175,7 +411,11 @@ def _msg_class(msg):
 
 
 def failure_key(case, obs):
+    if "lib" in case:
+        return f"{obs['exc']}:lib-{case['lib']}:{_msg_class(obs.get('msg'))}"
     mode = {"": "full", "-e": "edits", "-d": "digest"}["".join(case["mode"])]
+    if case.get("docset", 0) >= 9:       # loader / pairing probes: the failure does not depend on format or mode
+        return f"{obs['exc']}:{case['input']}-probe:docset{case['docset']}:{_msg_class(obs.get('msg'))}"
     return f"{obs['exc']}:{case['input']}->{_fmt(case)}:{mode}:{_msg_class(obs.get('msg'))}"
 
 
@@ -183,9 +423,27 @@ def monitor(case, obs):
     if not isinstance(obs, dict) or obs.get("error"):
         return [{"prop": "C13", "key": "harness-error:" + str(obs.get("exc") if isinstance(obs, dict) else ""), "what": repr(obs)[:300]}]
     hits = []
+    if "coverage" in case:
+        # coverage assertion: a handler that a command-line run can reach and that no case of a whole run entered is code C13 says
+        # nothing about.  (Only in a whole run: a replay of this pseudo-case alone has nothing to count.)
+        n = case["coverage"]
+        if _MONITORED[0] >= 500 and n not in NOT_CLI and not _RAN.get(n):
+            hits.append({"prop": "C13", "key": "handler-never-run:" + n,
+                         "what": f"no case of this run entered {n}: the document sets of the matrix stream do not cover it (extend them, "
+                                 f"or add it to NOT_CLI with the reason why no command-line run reaches it)"})
+        return hits
+    _MONITORED[0] += 1
+    for h in obs.get("handlers", []):
+        _RAN[h] = _RAN.get(h, 0) + 1
+        if "lib" in case:
+            _RAN_LIB[h] = _RAN_LIB.get(h, 0) + 1
+        if not obs["exc"]:
+            _RAN_OK[h] = _RAN_OK.get(h, 0) + 1
     if obs["exc"]:
         hits.append({"prop": "C13", "key": failure_key(case, obs),
                      "what": f"{' '.join(obs['argv'])}: internal error {obs['exc']}: {obs['msg']}"})
+    elif "lib" in case:
+        pass
     elif obs["rc"] not in (0, 1):
         hits.append({"prop": "C13", "key": f"bad-exit:{case['input']}->{_fmt(case)}", "what": f"{' '.join(obs['argv'])}: exit status {obs['rc']}; stderr {obs['err'][:120]!r}"})
     elif case["same"] and obs["rc"] != 0:
@@ -196,9 +454,21 @@ def monitor(case, obs):
 
 
 def classify(case, obs):
+    if "coverage" in case:
+        n = case["coverage"]
+        ran, ok = _RAN.get(n, 0), _RAN_OK.get(n, 0)
+        if n in NOT_CLI:
+            lib = _RAN_LIB.get(n, 0)
+            return f"handler:{n}:not reachable from the command line (" + NOT_CLI[n] + ")" + \
+                (" - RAN in a command-line case: the review is stale" if ran > lib else " - ran in the library cases (pydiff.print_diff)" if lib else "")
+        if not ran:
+            return f"handler:{n}:NOT-RUN"
+        return f"handler:{n}:ran" + ("" if ok else " (only in runs that ended in an internal error)")
+    if "lib" in case:
+        return f"lib:{case['lib']}:pair{case['pair']}:{'-k' if case.get('k') else 'defaults'}:{'+'.join(case['color'])}"
     mode = {"": "full", "-e": "edits", "-d": "digest"}["".join(case["mode"])]
     return f"{case['input']}->{_fmt(case)}:{mode}:{'+'.join(case['color'])}:{''.join(case.get('opts', [])) or 'defaults'}:docset{case.get('docset', 0)}"
 
 
 def nontrivial(case, obs):
-    return True
+    return "coverage" not in case
